@@ -602,6 +602,18 @@ int EGLPNUM_TYPENAME_ILLlib_chgbnds (
 	int rval = 0;
 	int i;
 
+	/* validate every item first: a failing call changes nothing */
+	for (i = 0; lp && i < cnt; i++)
+	{
+		if (indx[i] < 0 || indx[i] >= lp->O->nstruct ||
+				(lu[i] != 'L' && lu[i] != 'U' && lu[i] != 'B'))
+		{
+			QSlog("EGLPNUM_TYPENAME_ILLlib_chgbnds called with bad item %d", i);
+			rval = 1;
+			ILL_CLEANUP;
+		}
+	}
+
 	for (i = 0; i < cnt; i++)
 	{
 		rval = EGLPNUM_TYPENAME_ILLlib_chgbnd (lp, indx[i], lu[i], bnd[i]);
